@@ -136,6 +136,17 @@ def d_cases(tier):
                     yield {"part": "D", "q": list(qs), "p": list(pw), "Ts": Ts}
 
 
+def d_cases_scale(tier):
+    """numeric scale: Ts = 1e-9 and tap powers spanning 100+ dB"""
+    for k, pats in ((1, [(0.0,), (-150.0,)]),
+                    (2, [(0.0, -120.0), (-150.0, 0.0), (-60.0, -60.0)]),
+                    (3, [(0.0, -60.0, -120.0), (-140.0, 0.0, -3.0)])):
+        for qs in itertools.product(range(13), repeat=k):
+            for pw in pats:
+                for Ts in (1e-9, 1.0):
+                    yield {"part": "D", "q": list(qs), "p": list(pw), "Ts": Ts}
+
+
 def check_discretization(case, chk):
     from pyphysim.channels import fading
     qs, pw, Ts = case["q"], case["p"], case["Ts"]
@@ -237,12 +248,21 @@ def make_input(kind, users, ants, n):
 def pathloss_value(tag, shape):
     """deterministic path-loss values; tag 'v1'/'v2' (scalar or matrix)"""
     if shape is None:
-        return {"v1": 0.25, "v2": 0.04}[tag]
+        return {"v1": 0.25, "v2": 0.04, "tiny": 1e-12, "one": 1.0}[tag]
     r, t = shape
     m = np.empty((r, t), dtype=float)
     for i in range(r):
         for j in range(t):
-            m[i, j] = 1.0 / (1 + i * t + j) if tag == "v1" else 0.9 ** (1 + 2 * i + 3 * j)
+            if tag == "v1":
+                m[i, j] = 1.0 / (1 + i * t + j)
+            elif tag == "v2":
+                m[i, j] = 0.9 ** (1 + 2 * i + 3 * j)
+            elif tag == "tiny":
+                m[i, j] = 1e-12 * (1 + i * t + j)
+            elif tag == "one":
+                m[i, j] = 1.0 if (i + j) % 2 == 0 else 1e-6
+            else:
+                raise ValueError(tag)
     return m
 
 
@@ -280,13 +300,14 @@ class Sut:
         self.memory = self.ref_idx[-1]
         form = case.get("profile_form", "arrays")
         kw = {}
+        p_arg, d_arg = powers.copy(), delays.copy()      # the caller's arrays (checked, then overwritten)
         if form == "arrays":
-            kw = dict(tap_powers_dB=powers.copy(), tap_delays=delays.copy())
+            kw = dict(tap_powers_dB=p_arg, tap_delays=d_arg)
         elif form == "object":
             kw = dict(channel_profile=(cost_profile(case["profile"][1]) if case["profile"][0] == "cost259"
-                                       else fading.TdlChannelProfile(powers.copy(), delays.copy())))
+                                       else fading.TdlChannelProfile(p_arg, d_arg)))
         elif form == "discretized":
-            kw = dict(channel_profile=fading.TdlChannelProfile(powers.copy(), delays.copy())
+            kw = dict(channel_profile=fading.TdlChannelProfile(p_arg, d_arg)
                       .get_discretize_profile(self.Ts))
         else:
             raise ValueError(form)
@@ -312,6 +333,15 @@ class Sut:
         else:
             raise ValueError(w)
         self.ch = ch
+        # the caller's profile arrays are bit-identical after construction; afterwards the caller
+        # re-uses them for something else (the channel must not alias them)
+        self.profile_args_intact = bool(np.array_equal(p_arg, powers) and np.array_equal(d_arg, delays))
+        if case["profile"][0] == "custom":
+            p_arg[...] = -1.0
+            d_arg[...] = d_arg * 3.0 + 7.0 * self.Ts
+        self.buffers = {}                         # (kind, shape, dtype) -> array object re-used by the caller
+        self.ntx = 0                              # transmissions so far
+        self.retained = []                        # (what, array object, copy) returned earlier, kept by the caller
         self.switched = bool(case.get("switched", False))
         if self.switched:
             ch.switched_direction = True
@@ -322,11 +352,17 @@ class Sut:
                 self.pl[(i, j)] = None
         self.counter = 0                          # fading samples consumed by transmissions
         self.jk = {}                              # (i,j) -> (phi, psi, t0) read back from the generator
-        if self.jakes:
-            for (i, j) in self.pl:
-                gobj = self._generator(i, j)
-                self.jk[(i, j)] = (np.array(gobj._phi_l, dtype=float), np.array(gobj._psi_l, dtype=float),
-                                   float(gobj._current_time))
+        self.read_back_phases(first=True)
+
+    def read_back_phases(self, first=False):
+        """Jakes phases of every link (they are redrawn when the antenna shape changes); the start
+        time is read only once"""
+        if not self.jakes:
+            return
+        for (i, j) in self.pl:
+            gobj = self._generator(i, j)
+            t0 = float(gobj._current_time) if first else self.jk[(i, j)][2]
+            self.jk[(i, j)] = (np.array(gobj._phi_l, dtype=float), np.array(gobj._psi_l, dtype=float), t0)
 
     def _generator(self, i, j):
         if self.family == "tdl":
@@ -492,9 +528,123 @@ def jakes_expected(sut, link, sample_indexes):
     return h
 
 
+def check_jakes(sut, link, resp, samples, op, chk, case):
+    """reported taps == sqrt(P_tap [* pathloss]) * Jakes formula at the model's sample counter;
+    tolerance relative to the amplitude of each tap"""
+    want = jakes_expected(sut, link, samples)
+    vals = np.asarray(resp.tap_values_sparse)
+    rel = 1e-9 + 2 * math.pi * sut.Fd * sut.Ts * 4e-10 * (sut.counter + 2)
+    amp = np.sqrt(np.array(sut.ref_pow) * (1.0 if sut.pl[link] is None else sut.pl[link]))
+    ok = vals.shape == want.shape
+    dev = float("inf")
+    if ok:
+        d = np.abs(vals - want).reshape(len(amp), -1).max(axis=1)
+        dev = float(np.max(d / np.maximum(amp, 1e-300))) if np.all(np.isfinite(d)) else float("inf")
+        ok = dev <= rel or not np.any(amp > 0)
+    if not ok:
+        what = "sample_time"
+        if vals.shape == want.shape and np.all(np.isfinite(vals)):
+            # a wrong constant factor (tap power / path loss) or a wrong fading time?
+            alpha = complex(np.vdot(want, vals) / max(float(np.vdot(want, want).real), 1e-300))
+            d2 = np.abs(vals - alpha * want).reshape(len(amp), -1).max(axis=1)
+            if float(np.max(d2 / np.maximum(amp, 1e-300))) <= rel * max(1.0, abs(alpha)):
+                what = "constant_factor"
+        chk.fail(("reported_response", "jakes_reference", what, op), case,
+                 observed=("max per-tap relative deviation %.3g" % dev) if vals.shape == want.shape else vals.shape,
+                 expected="<= %.3g" % rel,
+                 msg="reported taps vs sqrt(P_tap [* pathloss]) * Jakes formula at the model's sample "
+                     "counter (N samples per time-domain transmission, fft_size per block)")
+
+
 # ----------------------------------------------------------------------
 # one transmission
 # ----------------------------------------------------------------------
+DTYPES = {"c128": np.complex128, "c64": np.complex64, "f64": np.float64, "f32": np.float32,
+          "i64": np.int64, "i32": np.int32}
+
+
+def cast_input(X, dtype):
+    """the canonical (users, ants, n) input with values exactly representable in `dtype`"""
+    if dtype is None:
+        return X
+    dt = np.dtype(DTYPES[dtype])
+    if dt.kind == "c":
+        return X.astype(dt)
+    R = np.real(X)
+    return R.astype(dt) if dt.kind == "f" else np.rint(R).astype(dt)
+
+
+def lay_out(a, layout):
+    """the same values in another memory layout / with the write flag cleared"""
+    a = np.array(a)
+    if layout in (None, "c"):
+        return a
+    if layout == "f":
+        return np.asfortranarray(a)
+    if layout == "strided":
+        buf = np.zeros(a.shape[:-1] + (2 * a.shape[-1] + 1,), dtype=a.dtype)
+        buf[..., 1::2] = a
+        return buf[..., 1::2]
+    if layout == "neg":
+        return np.ascontiguousarray(a[..., ::-1])[..., ::-1]
+    if layout == "tfirst":
+        return np.moveaxis(np.ascontiguousarray(np.moveaxis(a, -1, 0)), 0, -1)
+    if layout == "readonly":
+        a.flags.writeable = False
+        return a
+    if layout == "readonly_f":
+        a = np.asfortranarray(a)
+        a.flags.writeable = False
+        return a
+    raise ValueError(layout)
+
+
+def prepare_signal(sut, step, ui, ai, n):
+    """-> (X complex canonical values actually sent, API argument, bit-copy of the API argument).
+    A C-ordered array argument is written into the SAME array object the caller used for the previous
+    signal of that shape and dtype (identity-keyed caches would go stale)."""
+    if "_X" in step:
+        X = step["_X"]
+    else:
+        X = make_input(step["x"], ui, ai, n)
+        k = sut.ntx
+        if k:        # every transmission of a history sends different values
+            X = X + k if X.dtype.kind in "iu" else X * ((1 + 0.25 * k) * cmath.exp(0.3j * k))
+        if "amp" in step:
+            X = X * float(step["amp"])
+    Xd = cast_input(X, step.get("dtype"))
+    X = Xd.astype(complex)
+    form = step.get("form", "nd")
+    layout = step.get("layout")
+    sig = sut.api_signal(Xd, form)
+    if isinstance(sig, list):
+        sig = [lay_out(e, layout) for e in sig]
+        sig0 = [np.array(e) for e in sig]
+    else:
+        sig = lay_out(sig, layout)
+        if layout in (None, "c"):
+            key = ("sig", sig.shape, sig.dtype.str)
+            buf = sut.buffers.get(key)
+            if buf is None:
+                sut.buffers[key] = sig
+            else:
+                buf[...] = sig
+                sig = buf
+        sig0 = np.array(sig)
+    return X, sig, sig0
+
+
+def same_bits(a, b):
+    return (a.shape == b.shape and a.dtype == b.dtype
+            and np.ascontiguousarray(a).tobytes() == np.ascontiguousarray(b).tobytes())
+
+
+def poison(a):
+    """the caller overwrites an array it was handed"""
+    if isinstance(a, np.ndarray) and a.flags.writeable and a.dtype.kind in "fc":
+        a[...] = np.nan
+
+
 def sig_base(sut, domain, link=None):
     ant = "siso" if not sut.mimo else ("mimo_switched" if sut.switched else "mimo_direct")
     fam = sut.family
@@ -511,9 +661,7 @@ def transmit(sut, step, chk, case, results):
     form = step.get("form", "nd")
     if op == "time":
         n = int(step["n"])
-        X = step["_X"] if "_X" in step else make_input(step["x"], ui, ai, n)
-        sig = sut.api_signal(X, form)
-        sig0 = [np.array(s) for s in sig] if isinstance(sig, list) else np.array(sig)
+        X, sig, sig0 = prepare_signal(sut, step, ui, ai, n)
         base = sig_base(sut, "time_domain")
         chk.count("eval_time_transmissions")
         y = sut.ch.corrupt_data(sig)
@@ -529,13 +677,20 @@ def transmit(sut, step, chk, case, results):
         bins = selection_bins(fft, sel)
         bs = len(bins)
         n = bs * blocks
-        X = step["_X"] if "_X" in step else make_input(step["x"], ui, ai, n)
-        sig = sut.api_signal(X, form)
-        sig0 = [np.array(s) for s in sig] if isinstance(sig, list) else np.array(sig)
+        X, sig, sig0 = prepare_signal(sut, step, ui, ai, n)
         base = sig_base(sut, "freq_domain")
         chk.count("eval_freq_transmissions")
         chk.outcome("selection_bins", (fft, tuple(bins)))
-        sel_arg = sel.copy() if isinstance(sel, np.ndarray) else (list(sel) if isinstance(sel, list) else sel)
+        if isinstance(sel, np.ndarray):
+            # the caller keeps ONE selection array per shape and rewrites it in place
+            key = ("sel", sel.shape, sel.dtype.str)
+            sel_arg = sut.buffers.get(key)
+            if sel_arg is None:
+                sel_arg = sut.buffers[key] = sel.copy()
+            else:
+                sel_arg[...] = sel
+        else:
+            sel_arg = list(sel) if isinstance(sel, list) else sel
         try:
             y = sut.ch.corrupt_data_in_freq_domain(sig, fft, sel_arg)
         except Exception as e:  # noqa
@@ -561,11 +716,12 @@ def transmit(sut, step, chk, case, results):
         nsamp = blocks
         samples = [sut.counter + b * fft for b in range(blocks)]
         sut.counter += blocks * fft
-        if isinstance(sel, np.ndarray) and not np.array_equal(sel, sel_arg):
+        if ((isinstance(sel, np.ndarray) and not same_bits(np.asarray(sel), sel_arg))
+                or (isinstance(sel, list) and sel_arg != sel)):
             chk.fail(base + ("selection_argument_mutated",), case)
-    # the input must not be modified
-    same = (all(np.array_equal(a, b) for a, b in zip(sig, sig0)) if isinstance(sig, list)
-            else np.array_equal(sig, sig0))
+    # the input must be bit-identical after the call
+    same = (all(same_bits(a, b) for a, b in zip(sig, sig0)) if isinstance(sig, list)
+            else same_bits(sig, sig0))
     if not same:
         chk.fail(base + ("input_signal_mutated",), case)
     outs, why = sut.normalise_output(y, length)
@@ -573,6 +729,12 @@ def transmit(sut, step, chk, case, results):
         chk.fail(base + ("output_shape",), case, observed=why,
                  expected="length = input%s" % (" + channel memory %d" % sut.memory if op == "time" else ""))
         return False
+    outs = [np.array(o) for o in outs]          # own copies: the returned arrays are overwritten below
+    y_arrays = [y] if sut.family != "mu" else [y[v] for v in range(uo)]
+    for o in y_arrays:
+        if np.asarray(o).dtype != np.complex128:
+            chk.fail(base + ("output_dtype",), case, observed=np.asarray(o).dtype, expected="complex128")
+    reports = []
     # expected output = superposition over the links
     exp = [np.zeros((ao, length), dtype=complex) for _ in range(uo)]
     exp_trunc = [np.zeros((ao, length), dtype=complex) for _ in range(uo)]
@@ -594,22 +756,8 @@ def transmit(sut, step, chk, case, results):
                 if long_memory:
                     exp_trunc[v] += ref_freq(idx, C, X[u], int(step["fft"]), bins, blocks, True)
             if sut.jakes:
-                want = jakes_expected(sut, link, samples)
-                vals = np.asarray(resp.tap_values_sparse)
-                tol = (1e-9 + 2 * math.pi * sut.Fd * sut.Ts * 4e-10 * (sut.counter + 2)) \
-                    * max(1.0, float(np.max(np.abs(want))))
-                if vals.shape != want.shape or float(np.max(np.abs(vals - want))) > tol:
-                    what = "sample_time"
-                    if vals.shape == want.shape:
-                        # a wrong constant factor (tap power / path loss) or a wrong fading time?
-                        alpha = complex(np.vdot(want, vals) / max(float(np.vdot(want, want).real), 1e-300))
-                        if float(np.max(np.abs(vals - alpha * want))) <= tol * max(1.0, abs(alpha)):
-                            what = "constant_factor"
-                    chk.fail(("reported_response", "jakes_reference", what, op), case,
-                             observed=float(np.max(np.abs(vals - want))) if vals.shape == want.shape else vals.shape,
-                             expected="<= %.3g" % tol,
-                             msg="reported taps vs sqrt(P_tap [* pathloss]) * Jakes formula at the model's sample "
-                                 "counter (N samples per time-domain transmission, fft_size per block)")
+                check_jakes(sut, link, resp, samples, op, chk, case)
+            reports.append((link, resp))
     xmax = float(np.max(np.abs(X))) if X.size else 0.0
     terms = len(sut.ref_idx) * ui * ai + 2
     tol = C_TOL * numerics.EPS * terms * max(hmax, 1e-300) * max(xmax, 1e-300)
@@ -628,6 +776,48 @@ def transmit(sut, step, chk, case, results):
                              else "output!=DFT(reported_response)*input",), case,
                      observed="max abs deviation %.3g" % worst, expected="<= %.3g" % tol)
     results.append((X, outs))
+    # ---- arrays handed out earlier and kept by the caller are not changed by this call ...
+    for what, obj, cp in sut.retained:
+        if not same_bits(obj, cp):
+            chk.fail(base + ("earlier_returned_array_changed_by_later_call", what), case)
+        poison(obj)
+    sut.retained = []
+    for link, resp in reports:
+        # ... reading the report again gives the same taps ...
+        again = sut.reported(*link)
+        if not same_bits(np.asarray(again.tap_values_sparse), np.asarray(resp.tap_values_sparse)):
+            chk.fail(base + ("second_read_of_reported_response_differs",), case)
+        if op == "freq":
+            # ... the public frequency response is the DFT of the reported taps, and overwriting the
+            # array it returned (or the dense taps, if writable) does not change a second evaluation
+            fft = int(step["fft"])
+            fr = resp.get_freq_response(fft)
+            keep = np.array(fr)
+            vals = np.asarray(resp.tap_values_sparse)
+            kk = np.arange(fft).reshape(-1, 1)
+            W = np.exp(-2j * np.pi * ((kk * np.array(sut.ref_idx).reshape(1, -1)) % fft) / fft)
+            own = np.tensordot(W, vals, axes=(1, 0))
+            if keep.shape != own.shape or not numerics.err(keep, own) <= C_TOL * numerics.EPS * (
+                    len(sut.ref_idx) + 2 + math.log2(fft)) * max(float(np.max(np.abs(vals))), 1e-300):
+                chk.fail(base + ("get_freq_response!=DFT(reported_taps)",), case,
+                         observed=keep.shape if keep.shape != own.shape else numerics.err(keep, own))
+            poison(fr)
+            try:
+                resp.tap_values[...] = np.nan
+            except ValueError:
+                pass                      # read-only view: fine
+            if not same_bits(np.asarray(resp.get_freq_response(fft)), keep):
+                chk.fail(base + ("get_freq_response_changed_by_overwriting_a_returned_array",), case)
+    # ... and what the caller does to the arrays it was handed does not reach later transmissions:
+    # even transmissions: overwrite them now; odd ones: keep them and compare after the next call
+    handed = [("output", a) for a in y_arrays if isinstance(a, np.ndarray)] + \
+             [("reported_taps", resp.tap_values_sparse) for _, resp in reports]
+    if sut.ntx % 2 == 0:
+        for _, a in handed:
+            poison(a)
+    else:
+        sut.retained = [(what, a, np.array(a)) for what, a in handed]
+    sut.ntx += 1
     # evidence
     nontrivial = sut.memory > 0 or sut.mimo or sut.family == "mu" or (bins is not None and bins != list(range(int(step["fft"]))))
     if nontrivial:
@@ -655,6 +845,8 @@ def run_scenario(case, chk):
                  observed=(np.asarray(prof.tap_delays), np.asarray(prof.tap_powers_linear)),
                  expected=(sut.ref_idx, sut.ref_pow))
         return
+    if not sut.profile_args_intact:
+        chk.fail(("constructor", sut.family, "profile_arrays_mutated"), case)
     results = []
     kinds = []
     for step in case["history"]:
@@ -682,6 +874,7 @@ def run_scenario(case, chk):
             chk.count("eval_set_pathloss")
             if sut.family == "mu":
                 val = None if tag is None else pathloss_value(tag, sut.N)
+                val0 = None if val is None else val.copy()
                 try:
                     sut.ch.set_pathloss(val)
                 except TypeError as e:
@@ -695,14 +888,60 @@ def run_scenario(case, chk):
                         break
                     raise
                 for (i, j) in sut.pl:
-                    sut.pl[(i, j)] = None if val is None else float(val[i, j])
+                    sut.pl[(i, j)] = None if val is None else float(val0[i, j])
+                if val is not None:
+                    if not same_bits(val, val0):
+                        chk.fail(("MuChannel.set_pathloss", "argument_mutated"), case)
+                    val[...] = 0.5          # the caller re-uses its matrix; the channel must keep its own
                 pm = sut.ch.pathloss_matrix
-                if (val is None) != (pm is None) or (val is not None and not np.array_equal(pm, val)):
-                    chk.fail(("MuChannel.pathloss_matrix", "after_set_pathloss"), case, observed=pm, expected=val)
+                if (val is None) != (pm is None) or (val is not None and not np.array_equal(pm, val0)):
+                    chk.fail(("MuChannel.pathloss_matrix", "after_set_pathloss"), case, observed=pm, expected=val0)
             else:
                 val = None if tag is None else pathloss_value(tag, None)
                 sut.ch.set_pathloss(val)
                 sut.pl[(0, 0)] = val
+        elif op == "switch":
+            chk.count("eval_events")
+            sut.ch.switched_direction = bool(step["value"])
+            sut.switched = bool(step["value"])
+            if sut.ch.switched_direction is not sut.switched:
+                chk.fail(("switched_direction", sut.family, "read_back"), case)
+        elif op == "set_num_antennas":
+            chk.count("eval_events")
+            v = step["value"]
+            if v[0] is None:
+                try:
+                    sut.ch.set_num_antennas(None, None)
+                except TypeError as e:
+                    chk.fail(("set_num_antennas", "None_None", "documented_SISO_reset_raises"), case,
+                             observed="%s: %s" % (type(e).__name__, e),
+                             expected="documented: 'Set both `num_rx_antennas` and `num_tx_antennas` to None "
+                                      "for SISO transmission'")
+                    chk.count("scenarios_cut_short_by_a_reported_defect")
+                    break
+                sut.ant, sut.mimo = None, False
+            else:
+                sut.ch.set_num_antennas(int(v[0]), int(v[1]))
+                sut.ant, sut.mimo = (int(v[0]), int(v[1])), True
+            want = (-1, -1) if sut.ant is None else sut.ant
+            if (sut.ch.num_rx_antennas, sut.ch.num_tx_antennas) != want:
+                chk.fail(("set_num_antennas", sut.family, "read_back"), case,
+                         observed=(sut.ch.num_rx_antennas, sut.ch.num_tx_antennas), expected=want)
+            sut.read_back_phases()
+        elif op == "gen_ir":
+            # TdlChannel.generate_impulse_response called directly: consumes k fading samples
+            chk.count("eval_events")
+            k = int(step["value"])
+            sut.ch.generate_impulse_response(k)
+            samples = [sut.counter + q for q in range(k)]
+            sut.counter += k
+            resp = sut.reported(0, 0)
+            base = sig_base(sut, "generate_impulse_response")
+            if link_coefficients(sut, resp, k, chk, base, case) is None:
+                break
+            if sut.jakes:
+                check_jakes(sut, (0, 0), resp, samples, "gen_ir", chk, case)
+            poison(resp.tap_values_sparse)
         else:
             raise ValueError(op)
     chk.outcome("history_shapes", tuple(kinds))
@@ -1014,7 +1253,111 @@ def fam_longm(tier):
                     {"op": "freq", "fft": 4, "sel": None, "blocks": 1, "x": ["ramp"]}])
 
 
-FAMILIES = (("forms", fam_forms), ("longm", fam_longm), ("lin", fam_lin), ("ploss", fam_ploss),
+P_WIDE = ["custom", [0, 4, 12], [0.0, -60.0, -120.0]]
+P_WIDEC = ["custom", [2, 1, 8], [0.0, -150.0, -100.0]]       # collision of taps 150 dB apart
+
+
+def fam_events(tier):
+    """other public methods that touch shared state, as history events between transmissions"""
+    ta = {"op": "time", "x": ["expo"], "n": 5}
+    fa = {"op": "freq", "fft": 8, "sel": np.array([7, 0, 2]), "blocks": 2, "x": ["ramp"]}
+    fb = {"op": "freq", "fft": 8, "sel": np.array([1, 5, 3]), "blocks": 2, "x": ["expo2"]}
+    sw1, sw0 = {"op": "switch", "value": True}, {"op": "switch", "value": False}
+    sna = lambda a, b: {"op": "set_num_antennas", "value": [a, b]}
+    spl = lambda t: {"op": "set_pathloss", "value": t}
+    gir = {"op": "gen_ir", "value": 3}
+    configs = [
+        ("tdl", None, None, None, [sw1, sna(2, 3), sna(1, 2), gir]),
+        ("tdl", (2, 3), None, None, [sw1, sw0, sna(3, 2), sna(2, 3), sna(None, None), gir]),
+        ("tdlmimo", (3, 2), None, None, [sw1, sna(1, 1), gir]),
+        ("su", (1, 2), None, "v1", [sw1, sna(2, 1), spl(None), spl("v2")]),
+        ("sumimo", (2, 2), None, None, [sw1, sna(2, 3), spl("v1")]),
+        ("mu", None, 2, "v1", [sw1, sw0, spl(None), spl("v2")]),
+        ("mu", None, (2, 3), None, [sw1, spl("v1")]),
+        ("mumimo", (2, 3), 2, "v1", [sw1, spl(None)]),
+    ]
+    for (w, ant, N, pl, events) in configs:
+        for txs in ([ta, fa, fb], [fa, fb, ta]):
+            for depth in (1, 2):
+                for evs in itertools.product(range(len(events)), repeat=depth):
+                    hist = [dict(txs[0])]
+                    for k, e in enumerate(evs):
+                        hist.append(dict(events[e]))
+                        hist.append(dict(txs[k + 1]))
+                    for start_sw in (False, True):
+                        for gen in GENS:
+                            yield scen("events", w, P_MIX, 1e-3 if gen[0] == "jakes" and gen[1] else 1.0, gen,
+                                       with_initial_pathloss(pl, hist), ant=ant, N=N, switched=start_sw)
+
+
+def fam_scale(tier):
+    """everything is linear: amplitudes 1e-12 / 1e12, path loss 1e-12 / 1, Ts 1e-9, 100+ dB tap spans"""
+    configs = [("tdl", None, None, False), ("tdl", (2, 3), None, True), ("su", None, None, False),
+               ("sumimo", (2, 2), None, False), ("mu", None, 2, False), ("mumimo", (1, 2), (2, 1), True)]
+    for (w, ant, N, sw) in configs:
+        for gen in GENS:
+            for Ts in (1e-9, 1.0):
+                for prof in (P_WIDE, P_WIDEC, P_MIX):
+                    for amp in (1e-12, 1e12):
+                        for pl in ((None,) if w.startswith("tdl") else ("tiny", "one")):
+                            hist = [{"op": "time", "x": ["expo"], "n": 5, "amp": amp},
+                                    {"op": "freq", "fft": 8, "sel": slice(1, 7, 2), "blocks": 2, "x": ["ramp"],
+                                     "amp": 1.0 / amp},
+                                    {"op": "time", "x": ["impulse", 0, 1], "n": 3, "amp": amp}]
+                            yield scen("scale", w, prof, Ts, gen, with_initial_pathloss(pl, hist),
+                                       ant=ant, N=N, switched=sw)
+
+
+def fam_dtype(tier):
+    """dtype and memory layout of the signal argument"""
+    configs = [("tdl", None, None, False, None), ("tdl", (2, 3), None, False, None),
+               ("tdl", (3, 2), None, True, None), ("su", (1, 2), None, False, "v1"),
+               ("sumimo", (2, 2), None, False, None), ("mu", None, 2, False, "v1"),
+               ("mu", None, (2, 1), False, None), ("mumimo", (2, 3), 2, False, None)]
+    for (w, ant, N, sw, pl) in configs:
+        for gen in (GENS[0], GENS[2]):
+            for dt in ("c64", "f64", "f32", "i64", "i32", "c128"):
+                for lay in (None, "f", "strided", "neg", "tfirst", "readonly", "readonly_f", "list"):
+                    if lay == "list" and not w.startswith("mu"):
+                        continue
+                    if dt == "c128" and lay is None:
+                        continue
+                    extra = {"form": "list"} if lay == "list" else {"layout": lay}
+                    hist = [dict({"op": "time", "x": ["ramp"], "n": 6, "dtype": dt}, **extra),
+                            dict({"op": "freq", "fft": 8, "sel": slice(0, 8, 2), "blocks": 2, "x": ["expo"],
+                                  "dtype": dt}, **extra)]
+                    yield scen("dtype", w, P_013, 1.0, gen, with_initial_pathloss(pl, hist),
+                               ant=ant, N=N, switched=sw)
+
+
+def fam_sizes(tier):
+    """signal lengths and fft sizes around powers of two and a few large ones"""
+    ns = [15, 16, 17, 31, 32, 33, 63, 64, 65, 127, 128, 129, 255, 256, 257, 511, 512, 513,
+          1023, 1024, 1025, 2047, 2048, 2049, 4097]
+    if tier == "thorough":
+        ns += [4095, 4096, 8191, 8192, 8193, 16385]
+    configs = [("tdl", None, None, False, None, GENS[0], P_013), ("tdl", (2, 3), None, True, None, GENS[2], P_MIX),
+               ("mu", None, 2, False, "v1", GENS[1], P_013)]
+    for (w, ant, N, sw, pl, gen, prof) in configs:
+        for n in ns:
+            hist = [{"op": "time", "x": ["expo2"], "n": n}, {"op": "time", "x": ["ramp"], "n": 5}]
+            yield scen("sizes", w, prof, 1e-3 if gen == GENS[0] else 1.0, gen, with_initial_pathloss(pl, hist),
+                       ant=ant, N=N, switched=sw)
+    ffts = [15, 16, 17, 31, 32, 33, 64, 127, 128, 129, 1023, 1024, 1025, 4097]
+    for (w, ant, N, sw, pl, gen, prof) in configs:
+        for fft in ffts:
+            for sel in (None, slice(1, None, 3), np.array([fft - 1, 0, fft // 2])):
+                for blocks in (1, 3):
+                    if sel is None and fft > 200 and (blocks > 1 or ant is not None):
+                        continue
+                    hist = [{"op": "freq", "fft": fft, "sel": sel, "blocks": blocks, "x": ["expo"]},
+                            {"op": "time", "x": ["ramp"], "n": 3}]
+                    yield scen("sizes", w, prof, 1e-3 if gen == GENS[0] else 1.0, gen,
+                               with_initial_pathloss(pl, hist), ant=ant, N=N, switched=sw)
+
+
+FAMILIES = (("events", fam_events), ("scale", fam_scale), ("dtype", fam_dtype), ("sizes", fam_sizes),
+            ("forms", fam_forms), ("longm", fam_longm), ("lin", fam_lin), ("ploss", fam_ploss),
             ("cost", fam_cost), ("time", fam_time), ("freq", fam_freq), ("hist", fam_hist),
             ("time_pairs", fam_time_pairs))
 
@@ -1041,7 +1384,7 @@ def main(chk: Check):
     tier = chk.tier
 
     def worker(i, n, c):
-        for k, case in enumerate(d_cases(tier)):
+        for k, case in enumerate(itertools.chain(d_cases(tier), d_cases_scale(tier))):
             if k % n == i:
                 run_case(case, c)
         for k, case in enumerate(t_cases(tier)):
